@@ -53,7 +53,7 @@ type CRound struct {
 
 // ConcCase is one generated concurrent program.
 type ConcCase struct {
-	Env     string   `json:"env"`     // the limit, "1".."6"
+	Env     string   `json:"env"`     // the limit 1..12 in any spelling of the integer
 	Readers []int    `json:"readers"` // temporality modes as in Case
 	Insts   []CInst  `json:"insts"`
 	Rounds  []CRound `json:"rounds"`
@@ -81,6 +81,9 @@ func normalizeConc(c ConcCase) ConcCase {
 		l = 12
 	}
 	o.Env = strconv.Itoa(l)
+	if parseLimit(c.Env) == l && len(c.Env) <= 8 {
+		o.Env = c.Env // any spelling of the integer l (zero-padded, plus sign)
+	}
 	for _, m := range c.Readers {
 		if len(o.Readers) < 2 {
 			o.Readers = append(o.Readers, ((m%3)+3)%3)
@@ -169,8 +172,8 @@ func normalizeConc(c ConcCase) ConcCase {
 }
 
 func genConc(t *rapid.T) ConcCase {
-	l := rapid.SampledFrom([]int{1, 2, 2, 3, 3, 4, 5, 6}).Draw(t, "limit")
-	c := ConcCase{Env: strconv.Itoa(l), Readers: genReaders(t), Runs: 2}
+	l := rapid.SampledFrom([]int{1, 2, 2, 3, 3, 4, 5, 6, 2, 3, 4, 8, 9, 10}).Draw(t, "limit")
+	c := ConcCase{Env: spellLimit(t, l), Readers: genReaders(t), Runs: 2}
 	c.ResHook = rapid.SampledFrom([]int{0, 0, 0, 1, 1, 1, 1, 2}).Draw(t, "res_hook")
 	ni := rapid.IntRange(1, 3).Draw(t, "ninst")
 	for i := 0; i < ni; i++ {
@@ -683,7 +686,8 @@ func runConc(c ConcCase) ([]vk.Violation, vk.Info) {
 	for _, in := range c.Insts {
 		info.Class("kind/" + kindNames[in.Kind] + "/" + aggNames[effective(in.Agg, in.Bounds, in.Kind, raDefault).kind])
 	}
-	info.Class("limit/" + c.Env)
+	info.Class("limit/" + strconv.Itoa(parseLimit(c.Env)))
+	info.Class("limit_spelling/" + envSpelling(c.Env))
 	info.ClassIf(c.ResHook != 0, "reservoir_creation_perturbed")
 	info.ClassIf(len(c.Readers) == 2, "two_readers")
 	info.ClassIf(runtime.GOMAXPROCS(0) >= 2, "gomaxprocs>=2")
@@ -701,7 +705,7 @@ func runConc(c ConcCase) ([]vk.Violation, vk.Info) {
 func TestLimitConcurrent(t *testing.T) {
 	vk.Run(t, vk.Spec[ConcCase]{
 		Property: "C12", Check: "limit_concurrent",
-		Rule: "limit 1..6; 1-3 synchronous instruments (counter, up-down counter, histogram, gauge; int64/float64; default, explicit-bucket, exponential or sum aggregation); one or two ManualReaders (delta / cumulative / mixed); 2-5 rounds: a generated number of new sets is recorded sequentially so that 0..3 identity slots are left, then 2-8 goroutines released together (generated schedule perturbations, optionally also at exemplar-reservoir creation) each record the first (and 0-2 more) measurements of their OWN new set on every instrument, then Collect (a reader may skip); each program runs twice; " +
+		Rule: "limit 1..6 (sometimes 8..10), written plainly / zero-padded / with a plus sign; 1-3 synchronous instruments (counter, up-down counter, histogram, gauge; int64/float64; default, explicit-bucket, exponential or sum aggregation); one or two ManualReaders (delta / cumulative / mixed); 2-5 rounds: a generated number of new sets is recorded sequentially so that 0..3 identity slots are left, then 2-8 goroutines released together (generated schedule perturbations, optionally also at exemplar-reservoir creation) each record the first (and 0-2 more) measurements of their OWN new set on every instrument, then Collect (a reader may skip); each program runs twice; " +
 			"oracle per stream and collection: <= L points, conservation of value/count/sum, every identified point == the measurements of its set, exactly min(L-1, n) sets identified, no set loses against a set first measured strictly later, overflow point iff needed, cumulative identities are for life; which racing set wins a slot is not asserted; " +
 			"non-trivial = some round starts its race with at least one but fewer free identity slots than racing goroutines; distinct = distinct case encodings",
 		Quick: 2000, Thorough: 40000,
